@@ -74,6 +74,8 @@ def run(module_path, cfg_path, *, workdir, workers=16, mode="check", depth=None,
         if seed is not None:
             cmd += ["-seed", str(seed)]
     cmd += ["-workers", str(workers), "-metadir", str(meta), "-noGenerateSpecTE"]
+    if mode == "check" and "-fp" not in extra:
+        cmd += ["-fp", "0"]        # fixed fingerprint polynomial: state ids (and graph-derived schedules) are reproducible
     if coverage and mode == "check":
         cmd += ["-coverage", "1"]
     if not deadlock:
